@@ -185,7 +185,64 @@ def m6_median_time(S):
     S.witness(ctx, ob, "reach_even_window_distinct_middles", pre, T.and_(T.eq(k, 4), T.lt(ts[0].t, ts[1].t), T.lt(ts[1].t, ts[2].t), T.lt(ts[2].t, ts[3].t), T.eq(got, ts[2].t)))
 
 
-OBLIGATIONS = [m1_number_epoch, m2_timestamp, m3_contextual_epoch, m4_limits, m5_commit_window, m6_median_time]
+def m7_uncle_guards(S):
+    """UnclesVerifier::verify, one uncle: the verdict is Ok exactly when every guard holds, with each numeric guard at its stated
+    boundary (count <= max, same target, same epoch number, uncle.number < block.number, proposals <= limit); the hash-map based
+    descent / double-inclusion answers enter as environment booleans"""
+    ob = "C03.m7"
+    ctx = S.ctx(unwind=4)
+    ctx.uninterpreted_unknown_calls = True
+    cnt = ctx.int("uncles_count", "usize"); maxu = ctx.int("max_uncles", "usize"); gen = ctx.bool("block_is_genesis")
+    uct = ctx.int("uncle.compact", "u32"); ect = ctx.int("epoch.compact", "u32")
+    uep = ctx.int("uncle.epoch", "u64"); een = ctx.int("epoch.number", "u64")
+    un = ctx.int("uncle.number", "u64"); bn = ctx.int("block.number", "u64")
+    plen = ctx.int("uncle.proposals_len", "usize"); plim = ctx.int("proposals_limit", "u64")
+    B = {k: ctx.bool(k) for k in ("descendant", "double_inclusion", "proposals_hash_differs", "proposals_all_distinct", "pow_ok", "embedded_parent_found")}
+
+    def it_next(ex, callee, args, dty):
+        n = len([e for e in ex.log if e[0] == "next"])
+        ex.log.append(("next", callee, [], list(ex.pc)))
+        return mk_option(True, OpaqueV("uncle", "UncleBlockView"), dty) if n == 0 else mk_option(False, None, dty)
+
+    ctx.env = ERR + [
+        (E.rx(r"UncleBlockVec::len$"), lambda ex, c, a, d: cnt),
+        (E.rx(r"BlockView::is_genesis$"), lambda ex, c, a, d: BoolV(gen.t)),
+        (E.rx(r"Consensus::max_uncles_num$"), lambda ex, c, a, d: maxu),
+        (E.rx(r"Consensus::max_block_proposals_limit$"), lambda ex, c, a, d: plim),
+        (E.rx(r"UncleBlockVecViewIterator as Iterator>::next$"), it_next),
+        (E.rx(r"UncleBlockView::compact_target$"), lambda ex, c, a, d: uct),
+        (E.rx(r"EpochExt::compact_target$"), lambda ex, c, a, d: ect),
+        (E.rx(r"UncleBlockView::epoch$"), lambda ex, c, a, d: AggV((uep,), "EpochNumberWithFraction")),
+        (E.rx(r"EpochExt::number$"), lambda ex, c, a, d: een),
+        (E.rx(r"UncleBlockView::number$"), lambda ex, c, a, d: un),
+        (E.rx(r"BlockView::number$"), lambda ex, c, a, d: bn),
+        (E.rx(r"HashMap::<Byte32, u64>::get"), lambda ex, c, a, d: mk_option(B["embedded_parent_found"].t, ex.ctx.ref_to(ctx.int("embedded_parent_number", "u64")), d)),
+        (E.rx(r"HashMap::<Byte32, u64>::contains_key"), E.const_bool(False)),
+        (E.rx(r"UncleProvider>::descendant$"), lambda ex, c, a, d: BoolV(B["descendant"].t)),
+        (E.rx(r"UncleProvider>::double_inclusion$"), lambda ex, c, a, d: BoolV(B["double_inclusion"].t)),
+        (E.rx(r"ProposalShortIdVec::len$"), lambda ex, c, a, d: plen),
+        (E.rx(r"Byte32 as PartialEq>::ne$"), lambda ex, c, a, d: BoolV(B["proposals_hash_differs"].t)),
+        (E.rx(r"ProposalShortIdVecIterator as Iterator>::all"), lambda ex, c, a, d: BoolV(B["proposals_all_distinct"].t)),
+        (E.rx(r"PowEngine>::verify$"), lambda ex, c, a, d: BoolV(B["pow_ok"].t)),
+    ]
+    cands = [f for f in S.prog.by_short.get("verify", []) if "uncles_verifier.rs" in f.name and "{closure" not in f.name]
+    if len(cands) != 1:
+        raise Inconclusive(f"UnclesVerifier::verify: {len(cands)} candidates")
+    ps = S.run(ctx, cands[0], [ctx.ref_to(OpaqueV("uv", "UnclesVerifier<'a, P>"))])
+    pre = [T.le(cnt.t, 1), T.le(maxu.t, 1 << 31), T.lt(ctx.int("embedded_parent_number", "u64").t, (1 << 64) - 1)]
+    S.prove(ctx, ob, "no_panic", pre, T.not_(cond_of(panics(ps))))
+    ok = is_ok(ps)
+    embedded = T.and_(B["embedded_parent_found"].t, T.eq(T.add(ctx.int("embedded_parent_number", "u64").t, 1), un.t))
+    uen = T.emod(uep.t, 1 << 24)
+    guards = T.and_(T.not_(gen.t), T.le(cnt.t, maxu.t), T.eq(uct.t, ect.t), T.eq(een.t, uen), T.lt(un.t, bn.t),
+                    T.or_(embedded, B["descendant"].t), T.not_(B["double_inclusion"].t), T.le(plen.t, plim.t),
+                    T.not_(B["proposals_hash_differs"].t), B["proposals_all_distinct"].t, B["pow_ok"].t)
+    S.prove(ctx, ob, "no_uncles_is_always_ok", pre + [T.eq(cnt.t, 0)], ok)
+    S.prove(ctx, ob, "one_uncle_ok_iff_every_guard_holds", pre + [T.eq(cnt.t, 1)], T.iff(ok, guards), timeout_s=120)
+    S.witness(ctx, ob, "reach_ok_at_boundaries", pre + [T.eq(cnt.t, 1), ok], T.and_(T.eq(cnt.t, maxu.t), T.eq(T.add(un.t, 1), bn.t), T.eq(plen.t, plim.t)))
+
+
+OBLIGATIONS = [m1_number_epoch, m2_timestamp, m3_contextual_epoch, m4_limits, m5_commit_window, m6_median_time, m7_uncle_guards]
 
 ENGINE = "M"
 LEVEL = "other"
